@@ -256,12 +256,17 @@ def _storage_classes(tier="quick", seed=0):
             decl = "" if aname in ("forin-var", "forof-var", "catch-param") else "var v;"
             cap = "var getv = function () { return v; };" if capture == "captured" else ""
             src = f"function P(o, a, g) {{ var r; {decl} {cap} {acc} return r; }}"
+            if aname == "catch-param" and capture == "captured":
+                # (the parameter exists in its block only: the capturing function is written there)
+                src = "function P(o, a, g) { var r; try { throw 1; } catch (v) { var getv = function () { return v; }; r = v; } return r; }"
             try:
                 c = K.compile_src(src)
                 f = [x for x in K.all_functions(c) if x.name == "P"][0]
                 used = set()
-                slot = f.locals.index("v") if "v" in f.locals else None
-                cell = f.cell_vars.index("v") if "v" in f.cell_vars else None
+                # (a catch parameter is stored under a private name derived from its own)
+                is_v = lambda n_: n_ == "v" or (aname == "catch-param" and n_.startswith("v\x00"))
+                slot = next((i_ for i_, n_ in enumerate(f.locals) if is_v(n_)), None)
+                cell = next((i_ for i_, n_ in enumerate(f.cell_vars) if is_v(n_)), None)
                 ins, err = K.decode(f.bytecode, W)
                 for op, arg, _w in ins.values():
                     if op in fams["local"] and arg == slot:
